@@ -1,6 +1,11 @@
 """C42 tagged-data encoding (DESIGN §3 C42): round trips of evtag_marshal*/encode_* and every decoder on arbitrary
 bytes delivered as reference chains of exact-size heap blocks (harness/h_tag.c)."""
 from checks import generic
+import vlib
+
+# The harness allocates and frees many small exact-size blocks per evaluation; ASan's default 256 MB quarantine makes
+# every allocation touch fresh pages (7x slower).  16 MB still keeps a freed block poisoned for thousands of evaluations.
+ASAN_ENV = dict(ASAN_OPTIONS=vlib.sanitizer_env("asan")["ASAN_OPTIONS"] + ":quarantine_size_mb=16")
 
 RULE = ("(a) round trips: streams of 1..12 items of 10 kinds (int, int64, string, timeval, raw, buffer, nested buffers, bare encode_int/"
         "encode_int64/encode_tag) with tags and values biased to every encoding-length boundary (2^4k, 2^7k +-1, 2^32-1, 2^64-1), payloads "
@@ -12,24 +17,48 @@ RULE = ("(a) round trips: streams of 1..12 items of 10 kinds (int, int64, string
         "leave a suffix of the input; one evaluation = one (item) or one (input, split, decoder) run; non-trivial = every stream / every "
         "non-empty input; distinct = hash of the stream description / input bytes")
 REG = dict(category="exploration",
-           text="Runtime monitor: ~4e4 (quick) / 4e6 (thorough) marshalled items read back in order with size accounting against the documented "
-                "wire format, and ~1e6 (quick) / 1e8 (thorough) decoder runs on arbitrary byte strings delivered as evbuffer reference chains of "
+           text="Runtime monitor: ~1.6e4 (quick) / 1e6 (thorough) marshalled items read back in order with size accounting against the documented "
+                "wire format, and ~5e5 (quick) / 5e7 (thorough) decoder runs on arbitrary byte strings delivered as evbuffer reference chains of "
                 "exact-size heap blocks in every split of the header region, under ASan+UBSan, compared with an independent reference decoder.",
            note="trusts the reference codec in harness/h_tag.c (written from the wire-format comment; nibble/group order calibrated to the "
                 "implementation); input space sampled; two abort-class findings are isolated in forked children while they are present",
            technique="round-trip + differential decoder oracle + ASan red zones around exact-size chain blocks")
-STEPS = [
-    dict(flavor="asan", harness="h_tag", args=["--mode", "rt"], cases=dict(quick=300, thorough=30000)),
-    dict(flavor="asan", harness="h_tag", args=["--mode", "fuzz"], cases=dict(quick=400, thorough=40000), seed_off=1),
-]
+
+
+def steps(isoarg):
+    extra = ["--arg", isoarg] if isoarg else []
+    return [
+        dict(flavor="asan", env=ASAN_ENV, harness="h_tag", args=["--mode", "rt"] + extra, cases=dict(quick=120, thorough=8000)),
+        dict(flavor="asan", env=ASAN_ENV, harness="h_tag", args=["--mode", "fuzz"] + extra, cases=dict(quick=150, thorough=15000), seed_off=1),
+    ]
 
 
 def run(tier, seed):
+    # Probe: does either of the two isolated abort classes (see harness/h_tag.c) still abort?  One forked evaluation per class.
+    # The bulk steps then run the class in-process (clean) or skip it (still aborting; the probe's report is the finding).
+    vlib.build("asan", ["h_tag"])
+    pres = vlib.Result("C42")
+    vlib.run_harness(pres, "asan", "h_tag", ["--mode", "probe"], 1, seed, nshards=1, env_extra=ASAN_ENV)
+    st = pres.stats
+    known = all(st.get("probe_%s_crashes" % c, 0) + st.get("probe_%s_clean" % c, 0) > 0 for c in ("tag_overread", "empty_unmarshal"))
+    # if the probe itself failed, the bulk steps fall back to learning by forking (slower, same verdict)
+    isoarg = "t%de%d" % (1 if st.get("probe_tag_overread_crashes") else 0, 1 if st.get("probe_empty_unmarshal_crashes") else 0) if known else None
+
+    def post(res):
+        for k, v in pres.stats.items():
+            res.add_stat(k, v)
+        res.viol += pres.viol
+        res.inconclusive += pres.inconclusive
+        res.flavors |= pres.flavors
+
     req = ["items", "streams_recut_into_heap_blocks", "wrong_tag_probes", "decoder_success", "decoder_failure",
            "inputs_with_every_header_split", "inputs_holding_a_wellformed_item", "inputs_malformed_or_truncated",
            "int_nibbles_1", "int_nibbles_8", "int_nibbles_9", "int_nibbles_16", "tag_bytes_1", "tag_bytes_5"]
     req += ["marshalled_" + k for k in ("int", "int64", "string", "timeval", "raw", "buffer", "nested", "bare_int", "bare_int64", "bare_tag")]
     req += ["read_back_" + k for k in ("int", "int64", "string", "timeval", "raw", "buffer", "nested", "bare_int", "bare_int64", "bare_tag")]
-    return generic.run_spec("C42", tier, seed, STEPS, RULE, required=req,
+    return generic.run_spec("C42", tier, seed, steps(isoarg), RULE, required=req,
                             assumptions=["the reference codec follows the wire-format comment of event_tagging.c with the implementation's nibble/group order",
-                                         "byte strings are sampled from structured generators, splits are exhaustive only over the first 7 boundaries"])
+                                         "byte strings are sampled from structured generators, splits are exhaustive only over the first 7 boundaries",
+                                         "while an isolated abort class is present its evaluations are executed only by the probe step "
+                                         "(stat isolated_evaluations_skipped_budget counts the skipped ones)"],
+                            post=post)
